@@ -105,6 +105,9 @@ func (p *Program) hasMention(fn *ssa.Function) bool {
 	for _, b := range fn.Blocks {
 		for _, ins := range b.Instrs {
 			if c, isCall := ins.(*ssa.Call); isCall {
+				if f := c.Call.StaticCallee(); f != nil && strings.HasSuffix(f.String(), ".depTracker).addDep") {
+					return true
+				}
 				if f := c.Call.StaticCallee(); f != nil && f.Name() == "StructDesc" && len(c.Call.Args) == 1 {
 					if _, isConst := c.Call.Args[0].(*ssa.Const); !isConst {
 						return true
